@@ -52,10 +52,10 @@ theorem qsPartition_perm (cmp : Nat → Nat → Int) (fuel : Nat) (ord : Array N
 theorem quicksort_perm (cmp : Nat → Nat → Int) (n : Nat) : (quicksort cmp n).Perm (List.range n) := by
   unfold quicksort
   split
-  · rename_i h; simp at h; subst h; simp
   · have := qsPartition_perm cmp (n + 1) (Array.range n) 0 (n - 1)
     rw [Array.perm_iff_toList_perm, Array.toList_range] at this
     exact this
+  · exact List.Perm.refl _
 
 theorem quicksort_nodup (cmp : Nat → Nat → Int) (n : Nat) : (quicksort cmp n).Nodup :=
   (quicksort_perm cmp n).nodup_iff.mpr List.nodup_range
